@@ -25,7 +25,7 @@ ASSUMPTIONS = [
     "PYTHONHASHSEED is fixed (0) in both the sequence process and the fresh baseline process",
     "for compiled ACLs only result equality under reuse is required (matching overwrites their scratch 'match' field)",
 ]
-FLOORS = {"quick": {"jobs_in_sequences": 60, "fresh_baselines": 30, "snapshots_compared": 180, "repeated_jobs": 6, "same_vendor_other_hw": 6, "acl_jobs": 6, "rule_mutating_logic_jobs": 4, "nested_dropped_row_jobs": 8, "reference_tracker_jobs": 6, "shared_compiled_acl_jobs": 36, "overlay_provider_jobs": 30},
+FLOORS = {"quick": {"jobs_in_sequences": 60, "fresh_baselines": 30, "snapshots_compared": 180, "repeated_jobs": 6, "same_vendor_other_hw": 6, "acl_jobs": 6, "rule_mutating_logic_jobs": 4, "nested_dropped_row_jobs": 8, "reference_tracker_jobs": 6, "shared_compiled_acl_jobs": 36, "overlay_provider_jobs": 30, "reference_tracker_jobs_with_a_silent_generator": 6, "collecting_logic_pair_jobs": 12, "collecting_logic_jobs_refused": 6},
           "thorough": {"jobs_in_sequences": 2500, "fresh_baselines": 400, "snapshots_compared": 7500, "repeated_jobs": 200, "same_vendor_other_hw": 200, "acl_jobs": 200}}
 NPROC = {"quick": 8, "thorough": 16}
 FAMILIES = {"huawei": ["Huawei", "Huawei CE6870", "Huawei NE40E-X8", "Huawei Quidway S5300"], "huawei ce": ["Huawei CE0000", "Huawei NE40E-X8", "Huawei Quidway S5700"],
@@ -97,6 +97,19 @@ REF_PAIRS = [
     [{"kind": "hand", "model": "Huawei CE6870", "old": "", "new": "acl number 3000\n rule 5 permit ip\ninterface Vlanif10\n traffic-filter inbound acl 3000\nsysname h\n",
       "refs": [[[["interface Vlanif10", [["traffic-filter inbound acl 3000", []]]]], [["acl number 3000", []]]]]},
      {"kind": "hand", "model": "Huawei CE6870", "old": "", "new": "sysname h\ninterface Vlanif10\n description x\nacl number 3000\n rule 5 permit ip\n"}]
+]
+# ... and by a device whose tracker knows the same edge between the same two generator classes, but where the defining generator produced
+# nothing (no config registered for it): the patch is ordered as without references
+for _pair in REF_PAIRS:
+    _pair.append(dict(_pair[0], refs=[[_pair[0]["refs"][0][0], None]]))
+# vendor logic that collects several lines into one command (Aruba AP management parameters): job A carries all five parameters, job B
+# (another AP) lacks two of them and is refused when processed alone; values remembered from A must not complete B's command
+ARUBA_PAIRS = [
+    [{"kind": "hand", "model": "Aruba AP-505", "old": "", "new": "ipaddr:10.0.0.2\nnetmask:255.255.255.0\ngatewayip:10.0.0.1\ndnsip:8.8.8.8\ndomainname:example.com\n"},
+     {"kind": "hand", "model": "Aruba AP-505", "old": "ipaddr:10.1.0.2\nnetmask:255.255.255.0\ngatewayip:10.1.0.1\n", "new": "ipaddr:10.1.0.3\nnetmask:255.255.255.0\ngatewayip:10.1.0.1\n"}],
+    [{"kind": "hand", "model": "Aruba AP-505", "old": "ipaddr:10.0.0.2\nnetmask:255.255.255.0\ngatewayip:10.0.0.1\ndnsip:8.8.8.8\ndomainname:example.com\n",
+      "new": "ipaddr:10.0.0.9\nnetmask:255.255.255.0\ngatewayip:10.0.0.1\ndnsip:8.8.8.8\ndomainname:example.com\n"},
+     {"kind": "hand", "model": "Aruba AP-505", "old": "", "new": "ipaddr:10.2.0.2\nnetmask:255.255.255.0\n"}],
 ]
 
 
@@ -193,7 +206,10 @@ def plan(tier, seed):
         for pb in rng.sample(ACL_PAIRS[3:], 2):
             at = rng.randrange(len(seq) + 1)
             seq[at:at] = [dict(pb[0]), dict(pb[1])]
-        seq += [dict(pr[0]), dict(pr[1])]
+        seq += [dict(pr[0]), dict(pr[1]), dict(pr[2])]
+        pu = rng.choice(ARUBA_PAIRS)
+        at = rng.randrange(len(seq) + 1)
+        seq[at:at] = [dict(pu[0]), dict(pu[1])]
         pv = rng.choice(VLAN_PAIRS)
         at = rng.randrange(len(seq) + 1)
         seq[at:at] = [dict(pv[0]), dict(pv[1])]
@@ -243,6 +259,9 @@ def synth_rb(hw):
     return {"patching": compile_patching_text(SYNTH_RB, v), "ordering": compile_ordering_text("", v), "deploying": compile_deploying_text("", v)}
 
 
+REF_CLASSES = {}
+
+
 def compute(hw, old, new, acl_text, synth=False, refs=None):
     """the observed computation: diff, patch, ordered config"""
     from annet.api import _diff_and_patch
@@ -260,10 +279,13 @@ def compute(hw, old, new, acl_text, synth=False, refs=None):
         from annet.reference import RefTracker
         ref_track = RefTracker()
         for i, (rcfg, dcfg) in enumerate(refs):
-            rc, dc = type("RefGen%d" % i, (), {}), type("DefGen%d" % i, (), {})
+            # generator classes live as long as the process: every device's tracker is keyed by the same class objects
+            rc, dc = REF_CLASSES.setdefault(("RefGen", i), type("RefGen%d" % i, (), {})), REF_CLASSES.setdefault(("DefGen", i), type("DefGen%d" % i, (), {}))
             ref_track.add(rc, dc)
-            ref_track.config(rc, unplain(rcfg))
-            ref_track.config(dc, unplain(dcfg))
+            if rcfg is not None:
+                ref_track.config(rc, unplain(rcfg))
+            if dcfg is not None:
+                ref_track.config(dc, unplain(dcfg))
     try:
         diff, patch = _diff_and_patch(c01.Dev(hw), old, new, acl, None, False, ref_track=ref_track, rb=(synth_rb(hw) if synth else None))
         out["diff"] = norm_diff(diff)
@@ -395,6 +417,12 @@ def run_seq(spec, acc):
         got = compute(hw, old, new, acl, synth, job.get("refs"))
         if job.get("refs"):
             acc.count("reference_tracker_jobs")
+            if any(b is None for a, b in job["refs"]):
+                acc.count("reference_tracker_jobs_with_a_silent_generator")
+        if job["model"].startswith("Aruba") and job["kind"] == "hand":
+            acc.count("collecting_logic_pair_jobs")
+            if got.get("error"):
+                acc.count("collecting_logic_jobs_refused")
         if job.get("acl") and any(job["acl"] == pr[0]["acl"] for pr in ACL_PAIRS):
             acc.count("shared_compiled_acl_jobs")
         after = (plain(old), plain(new), c18.R_hash(c18.rb_signature(synth_rb(hw) if synth else rulebook.get_rulebook(hw))))
